@@ -117,13 +117,17 @@ CLAIMS = {
             "and del; accepted entries reach block, bloom filter, setsum and key-range metadata; seal writes data < index < "
             "filter < final block < flush < sync; size constants bound the encoded sizes of their messages and the trailer is "
             "the last packed fixed64.  Does not decide enumeration/seek/lookup correctness of the cursors.", "§4 C10"),
+    "C19": ("writer/reader table agreement of the serialised index: TABLE reading of the derived stub decoders' (number, wire type) switch trees vs. the field numbers and append kinds of the hand-written Builder writers (ORIGIN of builder receivers through helpers and sub-builder scopes), Tag constants of hand-written readers",
+            "Decides ONE clause of C19, `serialising and re-parsing the index changes nothing`, and of that only its structural "
+            "necessary condition: every field-by-field index writer emits exactly the (field number, wire type) set its reader's "
+            "stub dispatches on, nested sub-builders match the nested message types, stubs written whole are the stubs read "
+            "back, hand-written readers' expected tags are emitted, and the derived pack/unpack tables of scrunch's messages "
+            "agree.  Everything numerical in C19 (search positions, counts, rank/select/access, record mapping, extraction) is "
+            "NOT decided by static analysis and is not claimed.", "§4 C19"),
 }
 
 NA_DEFAULT = "check not built yet (DESIGN.md §8 build order); will be claimed once its rule set is armed"
 NA = {
-    "C19": "every clause is a numerical result over all texts/bit vectors (search positions, counts, rank/select, "
-           "serialise/re-parse identity); scrunch has no protocol, ownership or layering structure whose shape is a necessary "
-           "condition of them, so static analysis of code shape gives no verdict",
 }
 
 
